@@ -32,6 +32,14 @@ func fixedCases() [][]hx.T {
 		// a local, unpushed value shadows the queried one; query clears the dirty flag
 		{c("OConnect", 1), c("OBackNew", 1, 1), c("OBackNew", 2, 1), c("OBackSet", 1, 4, vint(1)), c("OBackSet", 2, 4, vint(2)), c("OBackPush", 2),
 			c("OBackQuery", 1), c("OBackGet", 1, 4), c("OBackDump", 1), c("OBackPush", 1), c("OFrontGet", 1, 4)},
+		// pipelined on one back-session: set, push (not awaited), set, [acks], push - the second value must arrive
+		{c("OConnect", 1), c("OBackNew", 1, 1), c("OBackScript", 1, []any{c("ASet", 4, vint(1)), "APush", c("ASet", 5, vint(2))}),
+			c("OBackPush", 1), c("OFrontDump", 1), c("OBackDump", 1)},
+		{c("OConnect", 1), c("OBackNew", 1, 1), c("OBackScript", 1, []any{c("ASet", 3, vstr(2)), "APush", c("ASet", 3, vstr(1)), "APush", c("ASet", 0, vstr(7))}),
+			c("OForward", 1), c("OBackPush", 1), c("OForward", 1)},
+		{c("OConnect", 1), c("OBackNew", 1, 1), c("OBackNew", 2, 1), c("OBackSet", 2, 5, vint(9)), c("OBackPush", 2),
+			c("OBackScript", 1, []any{c("ASet", 4, vint(1)), "APush", "AQuery", c("ASet", 5, vint(2)), "APush", "AQuery", c("ASet", 6, vint(3))}),
+			c("OBackDump", 1), c("OBackPush", 1), c("OFrontDump", 1), c("ORemove", 1), c("OBackScript", 1, []any{c("ASet", 6, vint(4)), "APush", "AQuery"}), c("OBackDump", 1)},
 		// value shapes
 		{c("OConnect", 1), c("OFrontSet", 1, 4, vint(9007199254740991)), c("OFrontSet", 1, 5, vlist(vint(1), vstr(5), vlist(vbool(true), "VNull"))),
 			c("OFrontSet", 1, 6, "VNull"), c("OFrontGet", 1, 4), c("OFrontGet", 1, 5), c("OFrontDump", 1), c("OBackNew", 1, 1), c("OBackQuery", 1),
@@ -122,12 +130,29 @@ func gen(cfg *hx.Config, i int) ([]hx.T, []string) {
 			ops = append(ops, hx.C("OBackGet", b, int64(r.Intn(7))))
 		case p < 79:
 			ops = append(ops, hx.C("OBackDump", b))
-		case p < 91:
+		case p < 89:
 			tags["push"] = true
 			ops = append(ops, hx.C("OBackPush", b))
-		default:
+		case p < 96:
 			tags["query"] = true
 			ops = append(ops, hx.C("OBackQuery", b))
+		default:
+			// pipelined script on one back-session: sets / pushes / queries without awaiting
+			tags["script"] = true
+			acts := []any{}
+			for j := 1 + r.Intn(6); j > 0; j-- {
+				switch q := r.Intn(10); {
+				case q < 5:
+					k, v := kv()
+					acts = append(acts, hx.C("ASet", k, v))
+				case q < 9:
+					acts = append(acts, "APush")
+				default:
+					tags["script-query"] = true
+					acts = append(acts, "AQuery")
+				}
+			}
+			ops = append(ops, hx.C("OBackScript", b, acts))
 		}
 	}
 	var tl []string
